@@ -102,13 +102,24 @@ func (g *genB) typ(depth int) string {
 		case 4:
 			return "chan " + g.typ(depth+1)
 		default:
-			return "map[" + g.named() + "]" + g.typ(depth+1)
+			return "map[" + g.namedKey() + "]" + g.typ(depth+1)
 		}
 	}
 	if g.tp.Int(5) == 0 {
 		return []string{"string", "int", "error", "bool", "[]byte"}[g.tp.Int(5)]
 	}
 	return g.named()
+}
+
+// namedKey picks a named type that is comparable (usable as a map key).
+func (g *genB) namedKey() string {
+	for {
+		t := bTypes[g.tp.Int(len(bTypes))]
+		if (strings.HasPrefix(t.path, "u/") && t.typ != "Opt") || (t.path == "time" && t.typ == "Duration") {
+			g.used[t.alias] = t
+			return "@" + t.alias + "@." + t.typ
+		}
+	}
 }
 
 func (g *genB) named() string {
